@@ -251,6 +251,13 @@ Ltac norm_fact H :=
   | _ => idtac
   end.
 
+Ltac norm_neg H :=
+  lazymatch type of H with
+  | ~ (_ \/ _) => let H1 := fresh "ng" in let H2 := fresh "ng" in
+                   apply Decidable.not_or in H; destruct H as [H1 H2]; norm_neg H1; norm_neg H2
+  | _ => idtac
+  end.
+
 Ltac try_fire H :=
   lazymatch type of H with
   | box (?A -> ?B) =>
@@ -258,6 +265,9 @@ Ltac try_fire H :=
               assert (a : A) by (first [assumption | lia]);
               let H' := fresh "N" in pose proof (H a) as H'; clear H a; norm_fact H'
             | assert (~ A) by lia; clear H
+            | let nb := fresh "nb" in
+              assert (nb : ~ B) by lia;
+              let na := fresh "N" in assert (na : ~ A) by (intro; apply nb; apply H; assumption); clear H nb; norm_neg na
             | idtac ]
   | box (?A \/ ?B) =>
       first [ let a := fresh "a" in
@@ -311,16 +321,30 @@ Ltac dpll n :=
                       end ]
           end ].
 
-Ltac finish := dpll 6%nat.
+(* refutation form: the negated goal joins the atoms *)
+Ltac refute :=
+  lazymatch goal with
+  | |- False => idtac
+  | |- ?G => let ng := fresh "ng" in assert (G \/ ~ G) as [ng|ng] by lia; [exact ng | exfalso; norm_neg ng]
+  end.
+
+Ltac finish := refute; dpll 6%nat.
 
 Ltac pf H := let N := fresh "N" in pose proof H as N; norm_fact N.
 
-(* marker used to instantiate the invariant once per known transaction *)
+(* markers used to instantiate the invariant once per known transaction (pair) *)
 Definition seen (j : N) (t : txn) := True.
 Definition seen2 (j : N) (t : txn) (k : N) (u : txn) := True.
 Definition seen3 (j : N) (t : txn) := True.
 
-Ltac inst1 HS g :=
+Ltac clear_marks :=
+  repeat match goal with
+         | X : seen _ _ |- _ => clear X
+         | X : seen2 _ _ _ _ |- _ => clear X
+         | X : seen3 _ _ |- _ => clear X
+         end.
+
+Ltac for_each_tx g tac :=
   repeat match goal with
   | Hg : g ?j = Some ?t |- _ =>
       lazymatch goal with
@@ -328,16 +352,11 @@ Ltac inst1 HS g :=
       | _ => idtac
       end;
       assert (seen j t) by exact I;
-      pf (s_dom _ _ _ _ HS j t Hg);
-      pf (s3a _ _ _ _ HS j t Hg); pf (s3b _ _ _ _ HS j t Hg); pf (s3c _ _ _ _ HS j t Hg);
-      pf (s4 _ _ _ _ HS j t Hg); pf (s5 _ _ _ _ HS j t Hg); pf (s7c _ _ _ _ HS j t Hg);
-      pf (o1a _ _ _ _ HS j t Hg); pf (o2a _ _ _ _ HS j t Hg); pf (o3a _ _ _ _ HS j t Hg);
-      pf (a0 _ _ _ _ HS j t Hg); pf (a0b _ _ _ _ HS j t Hg); pf (a1 _ _ _ _ HS j t Hg);
-      pf (a2 _ _ _ _ HS j t Hg); pf (a3 _ _ _ _ HS j t Hg); pf (b1 _ _ _ _ HS j t Hg);
-      pf (st_code_le (t_cc t)); pf (st_code_le (t_ca t))
-  end.
+      tac j t Hg
+  end;
+  clear_marks.
 
-Ltac inst2 HS g :=
+Ltac for_each_pair g tac :=
   repeat match goal with
   | Hg : g ?j = Some ?t, Hk : g ?k = Some ?u |- _ =>
       lazymatch goal with
@@ -345,26 +364,59 @@ Ltac inst2 HS g :=
       | _ => idtac
       end;
       assert (seen2 j t k u) by exact I;
-      pf (o1b _ _ _ _ HS j t k u Hg Hk); pf (o2b _ _ _ _ HS j t k u Hg Hk);
-      pf (o3b _ _ _ _ HS j t k u Hg Hk); pf (o4 _ _ _ _ HS j t k u Hg Hk);
-      pf (a7 _ _ _ _ HS j t k u Hg Hk)
-  end.
+      tac j t Hg k u Hk
+  end;
+  clear_marks.
 
 Ltac inst0 HS :=
   pf (s1 _ _ _ _ HS); pf (s2 _ _ _ _ HS); pf (s7a _ _ _ _ HS).
 
+(* g is a function: two names of one index name one transaction *)
+Lemma same_tx (g : N -> option txn) j t k u : g j = Some t -> g k = Some u -> j = k ->
+  cc t = cc u /\ ca t = ca u /\ rc t = rc u /\ ra t = ra u /\
+  t_cord t = t_cord u /\ t_rord t = t_rord u /\ t_ridx t = t_ridx u.
+Proof. intros H1 H2 E. subst k. rewrite H1 in H2. inversion H2; subst. repeat split; reflexivity. Qed.
+
+Ltac inst_same g :=
+  for_each_pair g ltac:(fun j t Hg k u Hk =>
+    lazymatch j with
+    | k => idtac
+    | _ => lazymatch goal with
+           | _ : seen2 k u j t |- _ => idtac
+           | _ => pf (same_tx g j t k u Hg Hk)
+           end
+    end).
+
+(* commit-frontier conjuncts *)
+Ltac instC HS g :=
+  inst_same g;
+  inst0 HS;
+  for_each_tx g ltac:(fun j t Hg =>
+      pf (s_dom _ _ _ _ HS j t Hg);
+      pf (s3a _ _ _ _ HS j t Hg); pf (s3b _ _ _ _ HS j t Hg); pf (s3c _ _ _ _ HS j t Hg);
+      pf (s4 _ _ _ _ HS j t Hg); pf (s5 _ _ _ _ HS j t Hg); pf (s7c _ _ _ _ HS j t Hg);
+      pf (st_code_le (t_cc t))).
+
+(* + ordinal conjuncts *)
+Ltac instO HS g :=
+  instC HS g;
+  for_each_tx g ltac:(fun j t Hg =>
+      pf (o1a _ _ _ _ HS j t Hg); pf (o2a _ _ _ _ HS j t Hg); pf (o3a _ _ _ _ HS j t Hg));
+  for_each_pair g ltac:(fun j t Hg k u Hk =>
+      pf (o1b _ _ _ _ HS j t k u Hg Hk); pf (o2b _ _ _ _ HS j t k u Hg Hk);
+      pf (o3b _ _ _ _ HS j t k u Hg Hk); pf (o4 _ _ _ _ HS j t k u Hg Hk)).
+
+(* + apply-frontier conjuncts *)
+Ltac instA HS g :=
+  instO HS g;
+  for_each_tx g ltac:(fun j t Hg =>
+      pf (a0 _ _ _ _ HS j t Hg); pf (a0b _ _ _ _ HS j t Hg); pf (a1 _ _ _ _ HS j t Hg);
+      pf (a2 _ _ _ _ HS j t Hg); pf (a3 _ _ _ _ HS j t Hg); pf (b1 _ _ _ _ HS j t Hg);
+      pf (st_code_le (t_ca t)));
+  for_each_pair g ltac:(fun j t Hg k u Hk => pf (a7 _ _ _ _ HS j t k u Hg Hk)).
+
 (* a gate fact  Gt : forall j p, g j = Some p -> ...  is instantiated with every known transaction *)
-Ltac inst_gate Gt g :=
-  repeat match goal with
-  | Hg : g ?j = Some ?t |- _ =>
-      lazymatch goal with
-      | _ : seen3 j t |- _ => fail
-      | _ => idtac
-      end;
-      assert (seen3 j t) by exact I;
-      pf (Gt j t Hg)
-  end;
-  repeat match goal with X : seen3 _ _ |- _ => clear X end.
+Ltac inst_gate Gt g := for_each_tx g ltac:(fun j t Hg => pf (Gt j t Hg)).
 
 (* split every "updf g i t' j = Some u" into the updated and the untouched case *)
 Ltac split_upd :=
@@ -387,6 +439,28 @@ Ltac rwt t' :=
   cbn [st_code oc] in *.
 
 Ltac splits := repeat match goal with |- _ /\ _ => split end.
+
+Ltac frame_eauto :=
+  solve [eauto using s_dom, s1, s2, s3a, s3b, s3c, s4, s5, s7a, s7c, o1a, o1b, o2a, o2b, o3a, o3b, o4, a0, a0b, a1, a2, a3, a7, b1].
+
+(* one conjunct of SInv after a write: `prep` normalises the goal (field rewriting / projections), `inst` brings in the
+   instantiated old conjuncts of the right group *)
+Ltac conj_with prep inst extra :=
+  intros; prep;
+  first [ frame_eauto | solve [intros; lia] | (splits; inst; extra; finish) ].
+
+Ltac sinv_by prep HS g extra :=
+  constructor;
+  [ conj_with prep ltac:(instC HS g) extra | conj_with prep ltac:(instC HS g) extra | conj_with prep ltac:(instC HS g) extra
+  | conj_with prep ltac:(instC HS g) extra | conj_with prep ltac:(instC HS g) extra | conj_with prep ltac:(instC HS g) extra
+  | conj_with prep ltac:(instC HS g) extra | conj_with prep ltac:(instC HS g) extra | conj_with prep ltac:(instC HS g) extra
+  | conj_with prep ltac:(instC HS g) extra
+  | conj_with prep ltac:(instO HS g) extra | conj_with prep ltac:(instO HS g) extra | conj_with prep ltac:(instO HS g) extra
+  | conj_with prep ltac:(instO HS g) extra | conj_with prep ltac:(instO HS g) extra | conj_with prep ltac:(instO HS g) extra
+  | conj_with prep ltac:(instO HS g) extra
+  | conj_with prep ltac:(instA HS g) extra | conj_with prep ltac:(instA HS g) extra | conj_with prep ltac:(instA HS g) extra
+  | conj_with prep ltac:(instA HS g) extra | conj_with prep ltac:(instA HS g) extra | conj_with prep ltac:(instA HS g) extra
+  | conj_with prep ltac:(instA HS g) extra ].
 
 (* ------------------------------------------------------------------ the history part under the two kinds of writes *)
 Lemma order_ok_app_incompletes evs : forall h, order_ok h = true -> Forall (fun e => is_complete e = false) evs ->
